@@ -1201,6 +1201,8 @@ class Stage:
                 raise Exception("ocp.set_der missing for quadrature state defined at " + str(self._meta[k]))
         quad = veccat(*der)
         alg = veccat(*self._alg)
+        if alg.numel()!=self.nz:
+            raise Exception("The number of algebraic equations (add_alg: %d) must match the number of algebraic variables (%d)." % (alg.numel(), self.nz))
         t = self.t
         expr = vertcat(ode,alg,quad)
         if not depends_on(expr,t):
